@@ -516,6 +516,46 @@ def check_c13(tier, seed):
     return v.finish("model_checking", cov, ["x86 only (NEON has no run-time probe)", "model states that would select a back end the host cannot execute are skipped and counted"], exhaustive=True)
 
 
+def check_c19(tier, seed):
+    v = Verdict("C19", tier, seed)
+    st = new_stage()
+    merged = Merged()
+    lib = mkbuild("shipped").build(st)
+    ard = os.path.join(st, "tree", "arduino", "libraries", "Skinny")
+    objdir = os.path.join(st, "ard-obj"); os.makedirs(objdir)
+    csrc = ["common.c", "pin.c", "families.c", "alloc.c", "obj.c"]
+    objs = []
+    inc = ["-I" + os.path.join(VERIF, "harness"), "-I" + os.path.join(VERIF, "ref")] + lib.incflags()
+    jobs = []
+    for c in csrc:
+        o = os.path.join(objdir, c[:-2] + ".o"); objs.append(o)
+        jobs.append(lambda c=c, o=o: vplib.sh(["gcc", "-O1", "-g", "-Wall", "-Wextra", "-Wno-unused-parameter"] + inc + ["-c", os.path.join(VERIF, "harness", c), "-o", o]))
+    cpps = [os.path.join(ard, f) for f in ("Skinny128.cpp", "Skinny64.cpp", "Mantis8.cpp", "CTR.cpp", "BlockCipher.cpp", "Cipher.cpp", "Crypto.cpp")]
+    for c in cpps + [os.path.join(VERIF, "harness", "h_ard.cpp")]:
+        o = os.path.join(objdir, os.path.basename(c)[:-4] + ".o"); objs.append(o)
+        jobs.append(lambda c=c, o=o: vplib.sh(["g++", "-O2", "-g", "-Wall", "-I" + ard] + inc + ["-c", c, "-o", o]))
+    run_parallel(jobs, workers=8)
+    binary = os.path.join(st, "bin-ard")
+    vplib.sh(["g++"] + objs + [lib.lib, "-Wl," + ",".join("--wrap=" + w for w in MC_WRAPS), "-o", binary])
+    per = {}
+    for sub, shards in (("fam", NCPU), ("hist", 5), ("ctr", NCPU)):
+        args = ["--sub", sub, "--tier", tier, "--seed", str(seed), "--label", "ard", "--maxbe", "2"]
+        m = Merged()
+        for res in run_sharded(binary, args, st, "ard-" + sub, nshards=shards):
+            m.add(res, {"special": "c19"}); merged.add(res, {"special": "c19"})
+        v.handle(m, make_replayer(binary, args))
+        per[sub] = m.evaluations
+    cov = {"evaluations": merged.evaluations, "distinct_nontrivial": merged.distinct,
+           "rule": "Arduino classes compiled unchanged with the host g++ (portable path; USE_AVR_INLINE_ASM undefined off-AVR) against the C library: (1) BG/BYTE/PAIR/BIT families over [tweak||]key||block "
+                   "through setKey/[setTweak]/encryptBlock/decryptBlock of all 11 block-cipher classes; (2) every history up to depth %d over {setKey(K0|K1|wrong length), setTweak(zero|FF|R1|R2|NULL|wrong length), "
+                   "clear+setKey, swapModes} for the four tweakable classes and Mantis8, oracle = C library keyed afresh with the last key/tweak/mode on 4 blocks x 2 directions; (3) CTR<T> over the five "
+                   "Skinny-128 classes x IVs with carries through every byte x every sequence of up to %d encrypt lengths from {0,1,2,15,16,17,31,32,33,49} in lock step with skinny128_ctr_* on the generic back end; "
+                   "wrong-length setKey/setTweak/setIV must return false and change nothing" % (5 if tier == "thorough" else 4, 4 if tier == "thorough" else 3),
+           "samples": merged.samples, "notes": merged.notes, "evaluations_per_part": per, "builds": [lib.describe(), "g++ -O2 arduino/libraries/Skinny/*.cpp"]}
+    return v.finish("exploration", cov, ["the AVR inline-assembly path is out of reach on the host", "histories that use an object before its first setKey, or setCounterSize < 16, have no C counterpart and are not in the alphabet",
+                                         "the C library side is tied to the specification by C01-C05"])
+
+
 def check_c15(tier, seed):
     v = Verdict("C15", tier, seed)
     st = new_stage()
@@ -775,4 +815,5 @@ REGISTRY = {
     "C16": check_c16,
     "C17": check_c17,
     "C18": check_c18,
+    "C19": check_c19,
 }
